@@ -27,6 +27,11 @@ mirror new NPIX NMODES ROWS | assign V | alias H | edit H I X | flatten | random
        | setif NPIX NMODES ROWS | read    -> ok … (read: ok VECTOR hit|miss; the K-th read, K = 0,1,…, hands out array K)
        | sedit K I X                      -> ok      (in-place edit of handed-out surface array K)
        | held K                           -> ok VECTOR (contents of handed-out surface array K)
+       | opd                              -> ok VECTOR hit|miss  (`readOpd`: one read of the surface — it takes an ordinal K
+                                             like a read, nobody keeps that array — and the doubled values)
+       | ideal                            -> ok SURFACE OPD | err spec-diverged
+                                             (the cache-free specification, stepped alongside by `Spec.step`: its read and its opd;
+                                              `err` when its state is not `spec` of the cached mirror's state)
 ```
 -/
 namespace HcipyVerif.Driver.C14
@@ -35,6 +40,8 @@ open HcipyVerif.Proto HcipyVerif.ModeBasis HcipyVerif.Mirror
 structure St where
   regs : List (String × Basis CRat) := []
   mirror : Option (Mirror CRat) := none
+  /-- the cache-free specification, stepped alongside the mirror -/
+  ideal : Option (Spec CRat) := none
 
 def parseC? (s : String) : Option CRat :=
   match s.splitOn ":" with
@@ -128,7 +135,9 @@ def mirrorStep (st : St) : List String → St × String
   | ["new", npix, nmodes, rows] =>
     match parseNat? npix, parseNat? nmodes, parseMat? rows with
     | some n, some m, some r =>
-      if wellShaped n m r then ({ st with mirror := some (Mirror.init r m) }, "ok") else (st, "bad-op")
+      if wellShaped n m r then
+        ({ st with mirror := some (Mirror.init r m), ideal := some (spec (Mirror.init r m)) }, "ok")
+      else (st, "bad-op")
     | _, _, _ => (st, "bad-op")
   | args =>
     match st.mirror with
@@ -136,7 +145,7 @@ def mirrorStep (st : St) : List String → St × String
     | some mir =>
       let fin (op : Op CRat) (out : Mirror CRat → String) : St × String :=
         let r := Mirror.step mir op
-        ({ st with mirror := some r.1 }, out r.1)
+        ({ st with mirror := some r.1, ideal := st.ideal.map fun s => (s.step op).1 }, out r.1)
       match args with
       | ["assign", v] =>
         match parseVec? v with
@@ -165,7 +174,22 @@ def mirrorStep (st : St) : List String → St × String
       | ["read"] =>
         let hit := decide (mir.cached = some (acts mir))
         let r := Mirror.read mir
-        ({ st with mirror := some r.1 }, s!"ok {showVec r.2} {if hit then "hit" else "miss"}")
+        ({ st with mirror := some r.1, ideal := st.ideal.map fun s => (s.step .read).1 },
+          s!"ok {showVec r.2} {if hit then "hit" else "miss"}")
+      | ["opd"] =>
+        let hit := decide (mir.cached = some (acts mir))
+        let r := Mirror.readOpd mir
+        ({ st with mirror := some r.1, ideal := st.ideal.map fun s => (s.step .read).1 },
+          s!"ok {showVec r.2} {if hit then "hit" else "miss"}")
+      | ["ideal"] =>
+        match st.ideal with
+        | some s =>
+          if spec mir = s then
+            match (s.step .read).2 with
+            | some v => (st, s!"ok {showVec v} {showVec s.opd}")
+            | none => (st, "err internal")
+          else (st, "err spec-diverged")
+        | none => (st, "bad-op")
       | ["acts"] => (st, s!"ok {showVec (acts mir)}")
       | ["sedit", k, i, x] =>
         -- in-place edit of the array the K-th read of `dm.surface` returned
